@@ -49,6 +49,20 @@ WORKSPACES = {
         "libb/b_mod.F90": "#include \"config.h\"\nmodule b_mod\n implicit none\n#ifdef FAST_PATH\n integer :: b_fast\n#else\n integer :: b_slow\n#endif\nend module b_mod\n",
         "libc/c_mod.F90": "module c_mod\n use a_mod\n use b_mod\n implicit none\ncontains\n subroutine touch()\n  print *, 1\n end subroutine touch\nend module c_mod\n",
     },
+    # a type that reaches its module through INCLUDE is extended in a file that sorts before the including one
+    "include_extends": {
+        "z_types.f90": "type :: shape_t\n integer :: ident\n real :: weight\nend type shape_t\n",
+        "s_base.f90": "module s_base\n implicit none\n include 'z_types.f90'\nend module s_base\n",
+        "a_app.f90": "module a_app\n use s_base\n implicit none\n type, extends(shape_t) :: circle_t\n  real :: radius\n end type circle_t\ncontains\n subroutine work(c)\n  type(circle_t) :: c\n"
+                     "  c%ident = 1\n  c%\n end subroutine work\nend module a_app\n",
+    },
+    # two preprocessed files include the same header, which branches on a macro only one of them defines before the #include
+    "shared_header": {
+        "precision.h": "#ifdef SINGLE_PRECISION\n#define WP 4\n#else\n#define WP 8\n#define HAVE_QUAD 1\n#endif\n",
+        "fast_kernels.F90": "#define SINGLE_PRECISION 1\n#include \"precision.h\"\nmodule fast_kernels\n implicit none\n real(WP) :: fast_tol\n#ifdef HAVE_QUAD\n real(16) :: fast_acc\n#endif\nend module fast_kernels\n",
+        "solver.F90": "#include \"precision.h\"\nmodule solver\n implicit none\n real(WP) :: solver_tol\n#ifdef HAVE_QUAD\n real(16) :: solver_acc\n#endif\nend module solver\n",
+        "hdr_main.f90": "program hdr_main\n use fast_kernels\n use solver\n implicit none\n solver_tol = fast_tol\nend program hdr_main\n",
+    },
 }
 
 
